@@ -77,6 +77,11 @@ CHECKS = {
         "note": "Trusted: TLC, the deterministic scheduler (threads block only at the fakes' entry points), fault injection through user callables / too-short process tensors. Known findings: the three functions that call enter()/exit() by hand.",
         "technique": "TLA+ thread-interleaving model + TLC (safety and liveness); schedule replay with deterministic fake Timer/Lock; fault enumeration per API",
     },
+    "C09": {
+        "text": "MeanField.tla states Heun's rule and the complete list of field-equation evaluations (stage, time, state observable, field value) per step in exact dyadic fixed-point arithmetic; TLC checks the closed form for equations linear in time and time/state consistency of every evaluation, and emits expected fields and evaluations for every configuration (time-dependent and complex-coupled equations, start times != 0, 1..2 systems of different dimension, two step sizes). The field equation is the hook: a probe field_eom logs every call; MeanFieldTempo and compute_dynamics_with_field (record_all True/False) must make exactly the specified evaluations and return exactly the specified fields; field-independent systems must follow their plain clock. Agreement of the two methods for field-dependent Hamiltonians with probe-bath process tensors is checked differentially (1e-8).",
+        "note": "Trusted: TLC, dyadic parameter choice (IEEE arithmetic exact), zero-coupling baths for the exact part. The differential part is numerical (tolerance 1e-8 at epsrel 1e-13).",
+        "technique": "TLA+ exact-arithmetic spec + TLC enumeration; user field equation as trace hook; spec->code comparison of evaluations and fields",
+    },
 }
 for e in ENGINES:
     e["serves_properties"] = sorted(CHECKS)
